@@ -11,6 +11,14 @@ SPIDEV = "adafruit_bus_device.SPIDevice / digitalio.DigitalInOut: assumed to fra
 NOT_APPLICABLE = {}
 
 PROPERTIES = {
+    "C04": {
+        "level_text": "_begin's address-derived fields, _logi_2_phys, _pipe_address and _lvl_2_addr are proved equal to digit-wise reference functions for every valid address (and symbolic prefix/suffix bytes); reachability in <= 8 hops along parent/child hops, the up-then-down shape, pipe-address injectivity over the whole (node, pipe) space, the pipes-1..5 byte sharing and the level-address lemmas are then proved as SMT validities over those reference functions for all 781x780 pairs and all pairwise-distinct prefix/suffix bytes at once (7 hops are shown insufficient as a vacuity guard).",
+        "level_note": "Assumes only the engine and (for _begin) the C03/C08 reference functions of the RF24 calls it makes (proved under C03/C08); address space finite and covered symbolically in full.",
+        "modules": ["spec.c04"],
+        "level": "proof",
+        "trusted_base": [ENGINE, "C03/C08 reference functions stand in for the RF24 calls made by _begin (each proved against its body under C03/C08)"],
+        "assumptions": ["address_prefix/address_suffix bytes pairwise distinct (hypothesis of the uniqueness lemmas; true of the defaults)", A_HW],
+    },
     "C08": {
         "level_text": "The listen setter/getter, open_tx_pipe, open_rx_pipe, close_rx_pipe, auto_ack/set_auto_ack and address are proved, for all arguments and from every state satisfying Inv and J, to refine reference functions written from the docs/datasheet, to preserve Inv and J, and (listen) to satisfy the RX-entry postcondition (pipe 0 on the user's address or closed), the CE ordering clause (PRIM_RX never changed with CE high; CE high in RX) and (open_tx_pipe, TX mode, auto-ack on pipe 0) 'pipe 0 open on the TX address'. Inductive, so it covers every call sequence.",
         "level_note": "Assumes A-HW, A-INT, A-SEP, A-CLK; SPI primitives inlined; 'send() to a listening peer succeeds' is reduced to the radio-side condition for receiving the ACK.",
